@@ -140,9 +140,14 @@ class Workload(object):
         out = []
         try:
             for o in self.dec_mod.StreamingDecoder(io.BytesIO(data), asn1Spec=self.spec, **self.dec_kw):
+                if not isinstance(o, U.p.base.Asn1Item):
+                    # e.g. schemaless `30 00` yields None (F7): a defect of C08/C16, not of the schedule
+                    raise Skip('reference-non-object')
                 out.append(U.absval(o))
                 if len(out) > len(self.encodings) + 2:
                     break
+        except Skip:
+            raise
         except Exception as e:
             raise Skip('reference:%s' % type(e).__name__)
         return out
